@@ -1,1 +1,97 @@
-From PyecoreV Require Import Model.Kernel.
+(* C03 — no feature ever holds a value of the wrong type.  Statements only;
+   proofs in Proofs/C03Proofs.v over Model/Kernel.v.
+   `typed m s`: every value stored in every slot passes the type check of its
+   feature (EcoreUtils.isinstance clause by clause; None only in
+   single-valued slots and in attribute collections).  It is an invariant of
+   EVERY operation of the kernel model — assignment, unset, del, whole
+   collection assignment, append/add, insert, remove, pop, clear,
+   extend/update/+=, item assignment and deletion, delete(), resource
+   append/remove/extend — including the values the opposite and container
+   updates write into OTHER objects' slots.  The only premises are about the
+   call, not the state: collection operations address multi-valued features,
+   and the owner of a linking call conforms to the type of the opposite end
+   (true for every applicable feature of a well-formed metamodel). *)
+From Coq Require Import ZArith List Bool Arith.
+From PyecoreV Require Import Lib.PyBase Lib.PyList Model.Kernel Proofs.C03Proofs.
+Import ListNotations.
+
+Theorem C03_typed_invariant_step :
+  forall m s o, typed m s -> op_ok m o -> typed m (next m s o).
+Proof. exact typed_step. Qed.
+Print Assumptions C03_typed_invariant_step.
+
+Theorem C03_typed_every_history :
+  forall m ops s, typed m s -> Forall (op_ok m) ops -> typed m (fold_left (next m) ops s).
+Proof. exact typed_history. Qed.
+Print Assumptions C03_typed_every_history.
+
+Theorem C03_initial_state_typed :
+  forall m,
+    (forall f, f_many (fd m f) = false -> check_single m f (f_default (fd m f)) = true) ->
+    typed m (init_state m).
+Proof. exact typed_init. Qed.
+Print Assumptions C03_initial_state_typed.
+
+(* a rejected single-value operation raises BadValueError and changes nothing at all *)
+Theorem C03_reject_set :
+  forall m s x f v, f_many (fd m f) = false -> check_single m f v = false ->
+    step m s (OSet x f v) = ((Some BadValue, s), None).
+Proof. exact reject_set. Qed.
+Print Assumptions C03_reject_set.
+
+Theorem C03_reject_append_insert :
+  forall m s x f pos v, check_elem m f v = false ->
+    coll_add_full m s (x, f) pos v = (Some BadValue, s).
+Proof. exact reject_add. Qed.
+Print Assumptions C03_reject_append_insert.
+
+Theorem C03_reject_item_assignment :
+  forall m s x f i v, check_elem m f v = false ->
+    coll_setitem_full m s (x, f) i v = (Some BadValue, s).
+Proof. exact reject_setitem. Qed.
+Print Assumptions C03_reject_item_assignment.
+
+Theorem C03_reject_extend :
+  forall m s x f vs, forallb (check_elem m f) vs = false ->
+    coll_extend_full m s (x, f) vs = (Some BadValue, s).
+Proof. exact reject_extend. Qed.
+Print Assumptions C03_reject_extend.
+
+Theorem C03_reject_whole_assignment :
+  forall m s x f vs, forallb (check_elem m f) vs = false ->
+    assign_full m s (x, f) vs = (Some BadValue, s).
+Proof. exact reject_assign. Qed.
+Print Assumptions C03_reject_whole_assignment.
+
+(* every conforming value is accepted *)
+Theorem C03_accept_set :
+  forall m s x f v, f_many (fd m f) = false -> check_single m f v = true ->
+    fst (fst (step m s (OSet x f v))) = None.
+Proof. exact accept_set. Qed.
+Print Assumptions C03_accept_set.
+
+Theorem C03_accept_append_insert :
+  forall m s x f pos v, check_elem m f v = true -> fst (coll_add_full m s (x, f) pos v) = None.
+Proof. exact accept_add. Qed.
+Print Assumptions C03_accept_append_insert.
+
+Theorem C03_accept_item_assignment :
+  forall m s x f i v, check_elem m f v = true ->
+    fst (coll_setitem_full m s (x, f) i v) <> Some BadValue.
+Proof. exact accept_setitem. Qed.
+Print Assumptions C03_accept_item_assignment.
+
+(* non-vacuity: an EInt attribute, a subclass-typed reference; a bool is an int, a string is not *)
+Definition ex_mm : mm :=
+  {| feats := [ {| f_owner := 0; f_isref := false; f_many := true; f_unique := true; f_cont := false;
+                   f_opp := None; f_type := TInt; f_default := VNone |};
+                {| f_owner := 0; f_isref := true; f_many := false; f_unique := true; f_cont := false;
+                   f_opp := None; f_type := TClass 1; f_default := VNone |} ];
+     conf := [(0, 0); (1, 1); (2, 2); (2, 1)]; ocls := [0; 1; 2]; enames := []; nres := 0 |}.
+
+Example C03_witness :
+  fst (fst (step ex_mm (init_state ex_mm) (OAppend 0 0 (VBool true)))) = None /\
+  fst (fst (step ex_mm (init_state ex_mm) (OAppend 0 0 (VStr 1)))) = Some BadValue /\
+  fst (fst (step ex_mm (init_state ex_mm) (OSet 0 1 (VObj 2)))) = None /\
+  fst (fst (step ex_mm (init_state ex_mm) (OSet 0 1 (VObj 0)))) = Some BadValue.
+Proof. vm_compute. repeat split; reflexivity. Qed.
